@@ -172,7 +172,23 @@ def check_case(ctx, case):
             t(warm.copy(), preserve_input=False)
             get_chunk_dtype_transformer("float64", "uint8", warn=False)
             res = t(arr, preserve_input=case["preserve"])
+            # several converted chunks are alive together (a caller that
+            # converts a list of chunks): converting further arrays of the
+            # same shape must not change a result handed out earlier
+            snapshot = res.tobytes()
+            other = build(dict(case, values=values[::-1]))
+            t(other, preserve_input=False)
+            t(build(dict(case, values=values[::-1])), preserve_input=True)
+            t(build(dict(case, values=values[1:] + values[:1])),
+              preserve_input=case["preserve"])
+            if res.tobytes() != snapshot:
+                ctx.fail("the array returned for one chunk changed when the "
+                         "same transformer converted the next chunk of the "
+                         "same shape (%s->%s, form=%s, preserve=%s)" % (
+                             in_dtype, out, case["form"], case["preserve"]))
     except Exception as exc:
+        if isinstance(exc, AssertionError):
+            raise
         ctx.fail("conversion %s->%s raised %s: %s (form=%s, preserve=%s)" % (
             in_dtype, out, type(exc).__name__, exc, case["form"],
             case["preserve"]))
